@@ -16,6 +16,7 @@ import KafkaVerif.Model.GroupBalancer
 import KafkaVerif.Spec.GroupAssign
 import KafkaVerif.Model.GroupGlue
 import KafkaVerif.Model.GroupWire
+import KafkaVerif.Model.GroupRound
 
 namespace KV.OracleC14
 open KV KV.GroupBalancer KV.Spec.GroupAssign
@@ -227,10 +228,82 @@ def stepWire (ws : List String) (impl : String) : String :=
     | none => "bad-args"
   | _ => "bad-op"
 
+/-! ### trace acceptance for Model/GroupRound.lean -/
+
+/-- one recorded event, ids still as byte strings -/
+inductive RawEv
+  | round (leader : List Nat) (ms : List RawMember)
+  | join (m : List Nat) (gid : Nat)
+  | assign (m : List Nat) (got : List Part)
+  | syncL (m : List Nat)
+  | syncM (m : List Nat)
+  | rejoin (m : List Nat)
+
+def parseRawEv (s : String) : Option RawEv :=
+  match s.splitOn ":" with
+  | ["N", _, l, ms] => match parseId l, parseList parseMember ms with
+    | some l, some ms => some (.round l ms)
+    | _, _ => none
+  | ["J", m, g] => match parseId m, g.toNat? with
+    | some m, some g => some (.join m g)
+    | _, _ => none
+  | ["A", m, ps] => match parseId m, parseList parsePart ps with
+    | some m, some ps => some (.assign m ps)
+    | _, _ => none
+  | ["L", m] => (parseId m).map .syncL
+  | ["S", m] => (parseId m).map .syncM
+  | ["R", m] => (parseId m).map .rejoin
+  | _ => none
+
+def rawIds : RawEv → List (List Nat)
+  | .round l ms => l :: ms.map (·.idBytes)
+  | .join m _ => [m] | .assign m _ => [m] | .syncL m => [m] | .syncM m => [m] | .rejoin m => [m]
+
+def toEv (w : Nat) : RawEv → KV.GroupRound.Ev
+  | .round l ms => .newRound (ms.map fun r => ⟨embed w r.idBytes, r.topics, r.zone⟩) (embed w l)
+  | .join m g => .joinOk (embed w m) g
+  | .assign m ps => .assign (embed w m) ps
+  | .syncL m => .syncLeader (embed w m)
+  | .syncM m => .syncMember (embed w m)
+  | .rejoin m => .rejoin (embed w m)
+
+def showTopicMap (m : KV.GroupGlue.TopicMap) : String :=
+  let es := (m.filter (fun e => !e.2.isEmpty)).mergeSort (fun a b => a.1 ≤ b.1)
+  if es.isEmpty then "-" else "+".intercalate (es.map fun e => s!"{e.1}/{showInts e.2}")
+
+/-- replay with `stepB`; after every L / S step report what the member's generation holds -/
+def replayTrace (P : KV.GroupRound.Params) (w : Nat) : KV.GroupRound.St → List RawEv → Nat → List String → Except Nat (List String)
+  | _, [], _, acc => .ok acc.reverse
+  | s, e :: es, k, acc =>
+    match KV.GroupRound.stepB P s (toEv w e) with
+    | none => .error k
+    | some s' =>
+      let acc' := match e with
+        | .syncL m | .syncM m =>
+          (match s'.pc (embed w m) with
+           | .running gid asg => s!"x{toHex (m.map UInt8.ofNat)}@{gid}={showTopicMap asg}"
+           | _ => "?") :: acc
+        | _ => acc
+      replayTrace P w s' es (k + 1) acc'
+
+def stepTrace (clusterS evS impl : String) : String :=
+  match parseList parsePart clusterS, (evS.splitOn "|").mapM parseRawEv with
+  | some cluster, some evs =>
+    let w := (evs.flatMap rawIds).foldl (fun a b => max a b.length) 0
+    let P : KV.GroupRound.Params := ⟨KV.GroupRound.balanceOf rangeAssign, cluster, List.reverse⟩
+    match replayTrace P w {} evs 0 [] with
+    | .ok obs => let model := if obs.isEmpty then "-" else "|".intercalate obs; answer model (impl == model)
+    | .error k => answer s!"rejected-at-event-{k}" false
+  | _, _ => "bad-args"
+
 def step (line : String) : String :=
   match line.splitOn " => " with
   | [req, impl] =>
-    match words req with
+    let ws := words req
+    -- w<balancer> ops carry a 4th field: the subscribed topics the cluster does not have
+    let missS := if ws.length == 4 then ws.getD 3 "-" else "-"
+    match (if ws.length == 4 then ws.take 3 else ws) with
+    | ["ltrace", c, e] => stepTrace c e impl
     | "abytes" :: _ => stepWire (words req) impl
     | "aread" :: _ => stepWire (words req) impl
     | "mbytes" :: _ => stepWire (words req) impl
@@ -257,29 +330,32 @@ def step (line : String) : String :=
         let idsH := ids.map fun i => (i, ((idTab.find? (·.1 == i)).map (·.2)).getD "?")
         let ts := sortDedup (ms.flatMap (·.topics) ++ ps.map (·.topic) ++ es.map (·.2.1))
         let a := asgOf es
+        -- what the leader's balancer is given: the cluster's partitions, or (w ops) what the fixed readTopicMetadata
+        -- makes of a Metadata answer in which the topics `missS` carry UnknownTopicOrPartition
+        let got := if op.startsWith "w" then KV.GroupGlue.leaderPartitions ps ((parseNats missS).getD []) ms else ps
         let wf := decide (WellFormed ms)
         let ok := impl != "panic"
         -- ops g<balancer>: the same group run through the real leader glue; `impl` is what the members RECEIVED;
         -- the model is the balancer model pushed through Model/GroupGlue (topics32 iterated in reverse order)
         -- ops v<balancer>: as g<balancer>, `impl` is Generation.Assignments of every member (after makeAssignments);
         -- the model applies `GroupGlue.makeAssignments` with the member's own topic list to its table entry
-        let viaView := op.startsWith "v" || op.startsWith "l"   -- l<balancer>: the same view, observed on real concurrent ConsumerGroups
+        let viaView := op.startsWith "v" || op.startsWith "l" || op.startsWith "w"   -- l<balancer>: the same view, observed on real concurrent ConsumerGroups
         let viaGlue := op.startsWith "g" || viaView
         let bop := if viaGlue then (op.drop 1).toString else op
         -- `thru m` = `KV.GroupGlue.delivered List.reverse m ids ts` evaluated through a table (see `glueTable`)
         -- (the table is bound as data at each use so that it is computed once, not once per lookup)
         match bop with
         | "range" =>
-          let tb0 := if viaGlue then glueTable (rangeAssign ms ps) ids ts else []
+          let tb0 := if viaGlue then glueTable (rangeAssign ms got) ids ts else []
           let tb := if viaView then viewTable ms tb0 else tb0
-          answer (render (if viaGlue then asgOfTable tb else rangeAssign ms ps) idsH ts) (ok && (!wf || rangeHoldsOn ms ps a ts ids))
+          answer (render (if viaGlue then asgOfTable tb else rangeAssign ms got) idsH ts) (ok && (!wf || rangeHoldsOn ms ps a ts ids))
         | "rr" =>
-          let tb0 := if viaGlue then glueTable (rrAssign ms ps) ids ts else []
+          let tb0 := if viaGlue then glueTable (rrAssign ms got) ids ts else []
           let tb := if viaView then viewTable ms tb0 else tb0
-          answer (render (if viaGlue then asgOfTable tb else rrAssign ms ps) idsH ts) (ok && (!wf || rrHoldsOn ms ps a ts ids))
+          answer (render (if viaGlue then asgOfTable tb else rrAssign ms got) idsH ts) (ok && (!wf || rrHoldsOn ms ps a ts ids))
         | "rack" =>
           let zs := sortDedup (ms.map (·.zone) ++ ps.map (·.zone))
-          let per := ts.map fun t => (t, rackTopic ms ps a ids t)
+          let per := ts.map fun t => (t, rackTopic ms got a ids t)
           let m : Asg := fun t id => match per.find? (·.1 == t) with
                                      | some (_, some es) => collect id es
                                      | _ => []
